@@ -19,8 +19,8 @@ type Violation struct {
 	Prop   string `json:"prop"`
 	Class  string `json:"class"`
 	Detail string `json:"detail"`
-	Cut    *int64 `json:"cut,omitempty"` // E2: the crash point that produced it (for a minimal replay job)
-	Mut    *Mut   `json:"mut,omitempty"` // C08: the alteration that produced it
+	Cut    *int64 `json:"cut,omitempty"`   // E2: the crash point that produced it (for a minimal replay job)
+	Mut    *Mut   `json:"mut,omitempty"`   // C08: the alteration that produced it
 	Sched  []int  `json:"sched,omitempty"` // C11: the schedule (choice list) that produced it
 }
 
@@ -54,10 +54,10 @@ func (h *Hang) Key() string {
 
 // ExecInfo is what a managed execution reports besides the job's own result.
 type ExecInfo struct {
-	Hang       *Hang    `json:"hang,omitempty"`
-	Crashes    []string `json:"crashes,omitempty"`     // panics on background goroutines ("process would have crashed")
-	ClientPanic string  `json:"client_panic,omitempty"` // panic on the client thread outside a guarded call
-	Steps      int      `json:"steps"`
+	Hang        *Hang    `json:"hang,omitempty"`
+	Crashes     []string `json:"crashes,omitempty"`      // panics on background goroutines ("process would have crashed")
+	ClientPanic string   `json:"client_panic,omitempty"` // panic on the client thread outside a guarded call
+	Steps       int      `json:"steps"`
 }
 
 // Env is the per-worker environment.
